@@ -187,8 +187,12 @@ let export exc t =
        | Inr rc -> "RC " ^ string_of_z rc
        | Inl r -> show_res show_value r ^ classify (scaleD_spec (clamp_p p)) [s; o; c] None)
   | "InflatePathsD" | "InflatePathD" ->
-      let p = next_z t in let ps = read_fpaths t in
-      (match export_inflateD pow10 p ps with
+      let p = next_z t in
+      let _jt = next t and _et = next t and _ml = next t in
+      let delta = next_fl t in let arc = next_fl t in
+      let ps = read_fpaths t in
+      let ps = if x = "InflatePathD" then [first_or_empty ps] else ps in
+      (match export_inflateD pow10 p ps delta arc with
        | Inr () -> "NULL"
        | Inl r -> show_res show_value r ^ classify (pow10_spec (clamp_p p)) [ps] None)
   | "RectClipD" | "RectClipLinesD" ->
